@@ -69,6 +69,17 @@ def correspondence(ctx, violations, known_hits):
             for lo in range(0, 65536, chunk):
                 cases.append(case_line(feat, st, lo, lo + chunk - 1))
                 meta.append((si, feat, lo))
+    # the TRAP routines depend on what R0 holds: every vector x00..xFF on states whose R0 runs through the byte classes (a zero
+    # low byte under a non-zero high byte, NUL, ESC, DEL, x80, xFF, line ends) and, for the string traps, points at strings that
+    # start with such words
+    for si, st in enumerate(states[:3]):
+        for r0 in (0x0000, 0x4100, 0x0041, 0x001B, 0x007F, 0x0080, 0x00FF, 0x000A, 0x000D, 0xFF00, 0x8000):
+            for first in (0x0000, 0x4100, 0x0041, 0x1B41):
+                st2 = dict(st)
+                st2["regs"] = [r0] + st["regs"][1:]
+                st2["ovs"] = st["ovs"] + [r0, first, (r0 + 1) % 65536, 0x0042, (r0 + 2) % 65536, 0x0000]
+                cases.append(case_line(si % 2, st2, 0xF000, 0xF0FF))
+                meta.append((si, si % 2, 0xF000))
     profiles = ["debug"] if ctx.tier == "quick" else ["debug", "release"]
     evaluations = 0
     sigs = set()
